@@ -384,6 +384,15 @@ def gen_model_raw(rng, *, max_periods=3, allow_stochastic=True, allow_filter=Tru
                 funcs = [f for f in funcs if f not in flt[1:]]
                 for f in flt[1:]:
                     fpar.pop(f["name"], None)
+                # a variable that entered only a dropped filter must enter utility now (no auxiliary states)
+                ufun = next(f for f in funcs if f["name"] == "utility")
+                covered = set(X.names_in(ufun["body"])).union(
+                    *[set(f["args"]) for f in funcs if f["name"].endswith(("_constraint", "_filter"))] or [set()])
+                for x in allvars:
+                    if x not in covered:
+                        coef = X.c(rng.choice([1, 3, -2])) if "int_utility" in force else X.c(Fraction(rng.choice([1, 3, 5, -2]), 2))
+                        ufun["body"] = ["+", ufun["body"], ["*", coef, X.v(x)]]
+                        ufun["args"] = sorted(set(ufun["args"]) | {x})
                 break
 
     # random declaration order of the functions
